@@ -25,7 +25,6 @@ class CteExtractor(BaseExtractor):
         context: AnalyzerContext,
     ) -> SubQueryLineageHolder:
         holder = self._init_holder(context)
-        subqueries = []
         for segment in list_child_segments(statement):
             if segment.type in ["select_statement", "set_expression"]:
                 holder |= self.delegate_to(
@@ -52,11 +51,13 @@ class CteExtractor(BaseExtractor):
                     if sub_segment.type == "identifier":
                         alias = sub_segment.raw
                     elif sub_segment.type == "bracketed":
+                        subqueries = []
                         for sq in self.list_subquery(sub_segment):
                             sq.alias = alias
                             subqueries.append(sq)
                         holder.add_cte(SqlFluffSubQuery.of(sub_segment, alias))
-
-        self.extract_subquery(subqueries, holder)
+                        # extract the body right away: a CTE can refer to itself and to the CTEs defined before it,
+                        # but a name in its body must not resolve to a CTE that is only defined later
+                        self.extract_subquery(subqueries, holder)
 
         return holder
